@@ -13,5 +13,6 @@ def check(rep, tier):
     from contracts import rules_numeric
     rep.run(rules_numeric.run, rep, tier, clauses=('N-hess',))
     rep.run(rules_numeric.run_scale, rep)
+    rep.run(rules_numeric.run_zero_cotangent, rep)
     from contracts import diffops
     rep.run(diffops.run_ops, rep, tier)
